@@ -30,6 +30,10 @@ res = {"seed": seed, "property": prop, "cmd": " ".join(cmd[1:]), "rc": p.returnc
        "lines": [l for l in p.stdout.splitlines() if l.startswith(("VIOLATION", "KNOWN-FINDING", "INCONCLUSIVE", "  harness=", "[" + prop))]}
 json.dump(res, open(os.path.join(sdir, "detect.json"), "w"), indent=1)
 print(json.dumps(res, indent=1))
+# keep the evidence of the run for diagnosis
+evp = os.path.join(out, "evidence", prop + ".json")
+if os.path.exists(evp):
+    shutil.copy(evp, os.path.join(sdir, "evidence.json"))
 # keep the replay values of a detected violation next to the seed
 rp = os.path.join(out, "replays", prop)
 if os.path.isdir(rp):
